@@ -224,11 +224,13 @@ class C04Energy(Monitor):
             if dg < -1e-12 or de < -1e-12:
                 yield Violation("C04", f"negative gain or expenditure booked ({kind})", {"vehicle": v.id, "dgained": dg, "dexpended": de})
             moved = v.distance_traveled_km > b.distance_traveled_km
-            if moved and lvl0 > 0 and not de > 0:
+            # "expends a strictly positive amount" is judged on the level itself (the booked counter is a running
+            # sum in which a 1e-18 expenditure is absorbed by rounding; its consistency is the identity above)
+            if moved and lvl0 > 0 and not lvl < lvl0:
                 yield Violation("C04", f"drove a positive distance without expending energy ({kind})", {"vehicle": v.id, "km": v.distance_traveled_km - b.distance_traveled_km, "level_before": lvl0, "level_after": lvl})
             a_idle = sname(v) == "Idle" and v.vehicle_state.idle_duration > (b.vehicle_state.idle_duration if sname(b) == "Idle" and b.vehicle_state.instance_id == v.vehicle_state.instance_id else 0)
             a_queue = sname(v) == "ChargeQueueing" and sname(b) == "ChargeQueueing" and b.vehicle_state.instance_id == v.vehicle_state.instance_id
-            if (a_idle or a_queue) and lvl0 > 0 and dt > 0 and not de > 0:
+            if (a_idle or a_queue) and lvl0 > 0 and dt > 0 and not lvl < lvl0:
                 yield Violation("C04", f"idled for a positive time without expending energy ({kind})", {"vehicle": v.id, "activity": sname(v), "level_before": lvl0, "level_after": lvl})
             if v.geoid != b.geoid and not lvl > 0:
                 yield Violation("C04", f"moved on with no energy left ({kind})", {"vehicle": v.id, "level": lvl})
@@ -374,13 +376,14 @@ class C06Movement(Monitor):
                             yield Violation("C06", "vehicle is on a link that is not part of its route", {"vehicle": v.id, "link": v.position.link_id})
                     elif r0 and v.geoid != r0[-1].end:
                         yield Violation("C06", "route exhausted but vehicle is not at its end", {"vehicle": v.id})
-                    # speed bound, history form: the time-length of the consumed part of the route may exceed
-                    # the step only by per-link whole-second rounding and one cell of snapping
-                    consumed = _route_time_s(r0) - _route_time_s(r1)
-                    nlinks = len(r0) - len(r1) + 1
-                    vmin = min(l.speed_kmph for l in r0)
-                    if consumed > dt + nlinks + 3600.0 * 0.004 / vmin + 1e-6:
-                        yield Violation("C06", "covered more road than the link speeds allow in one step", {"vehicle": v.id, "consumed_s": consumed, "dt": dt, "links": nlinks})
+                    # speed bound, history form (the exact per-link form is the component check): the distance of the
+                    # step is at most the fastest touched link's speed x (step + one second of rounding per link),
+                    # plus one cell of snapping. (Remaining-time differences cannot be used: route() gives a first
+                    # link its full length even when the vehicle starts mid-link, and a split re-measures it.)
+                    touched = r0[: len(r0) - len(r1) + 1]
+                    vmax = max(l.speed_kmph for l in touched)
+                    if dodo > vmax * (dt + len(touched)) / 3600.0 + 0.002 + 1e-9:
+                        yield Violation("C06", "covered more road than the link speeds allow in one step", {"vehicle": v.id, "km": dodo, "dt": dt, "fastest_link_kmph": vmax, "links": len(touched)})
                 if r0 and _level(b) > 0 and sname(v) in MOVING:
                     vmax = max(l.speed_kmph for l in r0)
                     open_route = r0[0].start != r0[-1].end
